@@ -3,6 +3,7 @@ package wrap
 import (
 	"context"
 	"fmt"
+	"io"
 	"reflect"
 
 	"google.golang.org/grpc"
@@ -70,7 +71,9 @@ func (w *wrapper) Invoke(ctx context.Context, method string, args any, reply any
 		clientServerStream.Close(err)
 	}()
 
-	if err := cs.SendMsg(args); err != nil {
+	// like grpc.ClientConn.Invoke: io.EOF from sending only says the call has already ended,
+	// the reason for it (cancellation, a status from the server) is what RecvMsg reports.
+	if err := cs.SendMsg(args); err != nil && err != io.EOF {
 		return err
 	}
 	if err := cs.CloseSend(); err != nil {
